@@ -19,7 +19,7 @@ from pathlib import Path
 
 V = Path(__file__).resolve().parent.parent
 REPO = Path("/repo")
-CROSS = {"C10": ["C03", "C04", "C08", "C09", "C14", "C16", "C17", "C06", "C05"],
+CROSS = {"C10": ["C03", "C04", "C08", "C09", "C14", "C16", "C17", "C06", "C05", "C19"],
          "C11": ["C03", "C04", "C05", "C06", "C07", "C08", "C09", "C14", "C16", "C17"],
          "C12": ["C03", "C04", "C05", "C16", "C18"]}
 
